@@ -8,7 +8,7 @@ DEV = '{"D16b_no_replay", "D15_compress_lossy"}'      # generate with the faithf
 
 def consts(insts, stop, dev, compress=False, ops=OPS, timeouts='{2,3}', ticks='{1,2}', maxnow=100000, kv='{0,2}', sv='{0,3,4}'):
     return dict(Inst=insts, Timeouts=timeouts, Ticks=ticks, KVals=kv, StepVals=sv, Stop=str(stop), MaxNow=str(maxnow),
-                Scen='{"base","high"}', Ops=ops, Adapter="TRUE", Compress="TRUE" if compress else "FALSE", Dev=dev)
+                Scen='{"base","high"}', Ops=ops, Adapter="TRUE", Compress="TRUE" if compress else "FALSE", Kinds='{}', Creds='{}', Dev=dev)
 
 
 def replay_set(R, hs, compress, known_total, probe=True):
